@@ -168,7 +168,7 @@ class NexusMachine(Machine):
     def fingerprint(self, case, v):
         """Tokens describing the violation for known-finding matching."""
         kinds = [op[0] for op in case["ops"]]
-        tok = [v.get("oracle", "?"), v.get("observable", "?")]
+        tok = [v.get("oracle", "?"), v.get("observable", "?")] + list((v.get("extra") or {}).get("tags", []))
         for k in ("unfreeze", "set_func", "setitem", "new_fallback", "cycle", "replace", "replace_child", "add_dep", "drop", "arm", "freeze"):
             if k in kinds:
                 tok.append(k)
@@ -530,7 +530,7 @@ class Exec(object):
         self.res.states.add(h64(items, edges))
 
     def viol(self, oracle, observable, msg, step, expected=None, actual=None):
-        raise Violation(PROP, oracle, observable, msg, step=step, expected=expected, actual=actual)
+        raise Violation(PROP, oracle, observable, msg, step=step, expected=expected, actual=actual, extra={"tags": sorted(self.gs.g.events)})
 
     # -- reads with oracle
     def checked_read(self, step, nid, what="read"):
